@@ -575,6 +575,17 @@ func c09Body(c *ev.Ctx) {
 			doc[f] = "0x" + v.Add(v, ref.R).Text(16)
 			add("POST", mustJSON(doc), f+"+r (same field element)")
 		}
+		if mode == "insertion" {
+			for i, x := range nearValidInsBatches(d, b) {
+				xx := x
+				add("POST", mustJSON(insDoc(&xx)), fmt.Sprintf("near-valid batch #%d (start %s)", i, x.Start))
+			}
+		} else {
+			for i, x := range nearValidDelBatches(d, b) {
+				xx := x
+				add("POST", mustJSON(delDoc(&xx)), fmt.Sprintf("near-valid batch #%d (indices %v)", i, x.Idx))
+			}
+		}
 		nSingles += int64(len(reqs))
 		// singles: all on ONE server instance per chunk (also exercises "answers subsequent requests")
 		chunk := 200
@@ -652,7 +663,12 @@ func c09Body(c *ev.Ctx) {
 	}
 	c.Set("states", int64(len(st.states)))
 	c.Set("transitions", st.requests)
-	c.Set("traces_validated_against_impl", nSeqs+nSingles)
+	e2e := int64(0)
+	if c.NViolations() == 0 {
+		e2e = c09E2E(c)
+	}
+	c.Set("e2e_requests_validated_on_real_binary", e2e)
+	c.Set("traces_validated_against_impl", nSeqs+nSingles+e2e)
 	c.Set("single_requests", nSingles)
 	c.Set("request_histories", nSeqs)
 	c.Set("proofs_returned_and_verified", st.proofs)
